@@ -2,6 +2,7 @@ package tracefs
 
 import (
 	"fmt"
+	"math/rand"
 	"os"
 	"strings"
 	"syscall"
@@ -65,6 +66,155 @@ func TestTraceKVPlain(t *testing.T) {
 // the reference: hackpadfs os.FS in a fresh directory (a trace the specification rejects here is a specification error)
 func TestTraceOS(t *testing.T) {
 	suite(t, "os", func(tb testing.TB) hackpadfs.FS {
+		sub, err := hpos.NewFS().Sub(strings.TrimPrefix(tb.TempDir(), "/"))
+		if err != nil {
+			tb.Fatal(err)
+		}
+		return sub
+	})
+}
+
+// random histories: a seeded driver over a richer alphabet than the bounded models (deeper paths, longer data, several
+// open handles, operations on removed and renamed open files), recorded like the conformance scenarios
+func randomHistories(t *testing.T, base string, mk func(tb testing.TB) hackpadfs.FS) {
+	seed := int64(1)
+	if s := os.Getenv("VERIF_SEED"); s != "" {
+		fmt.Sscan(s, &seed)
+	}
+	n, steps := 40, 60
+	if s := os.Getenv("VERIF_TRACE_RANDOM"); s != "" {
+		fmt.Sscan(s, &n, &steps)
+	}
+	for k := 0; k < n; k++ {
+		rnd := rand.New(rand.NewSource(seed*1000003 + int64(k)))
+		fs := rec.New(fmt.Sprintf("random/%s/%d", base, k), base, mk(t))
+		drive(rnd, fs, steps)
+	}
+}
+
+func drive(rnd *rand.Rand, fs *FS, steps int) {
+	names := []string{"a", "b", "c", "dd"}
+	path := func() string {
+		d := 1 + rnd.Intn(3)
+		parts := make([]string, d)
+		for i := range parts {
+			parts[i] = names[rnd.Intn(len(names))]
+		}
+		return strings.Join(parts, "/")
+	}
+	// the root itself only where it cannot be removed or moved (the bounded models cover that: FSCore.root.cfg; on the
+	// os-backed reference the root is an ordinary, removable directory)
+	pathOrRoot := func() string {
+		if rnd.Intn(12) == 0 {
+			return "."
+		}
+		return path()
+	}
+	data := func() []byte {
+		b := make([]byte, rnd.Intn(9))
+		for i := range b {
+			b[i] = byte(1 + rnd.Intn(200))
+		}
+		return b
+	}
+	perms := []hackpadfs.FileMode{0644, 0600, 0755, 0700, 0666}
+	perm := func() hackpadfs.FileMode { return perms[rnd.Intn(len(perms))] }
+	flags := []int{
+		hackpadfs.FlagReadOnly, hackpadfs.FlagReadOnly, hackpadfs.FlagWriteOnly, hackpadfs.FlagReadWrite,
+		hackpadfs.FlagReadWrite | hackpadfs.FlagCreate, hackpadfs.FlagWriteOnly | hackpadfs.FlagCreate | hackpadfs.FlagTruncate,
+		hackpadfs.FlagReadWrite | hackpadfs.FlagCreate | hackpadfs.FlagExclusive, hackpadfs.FlagWriteOnly | hackpadfs.FlagAppend,
+		hackpadfs.FlagReadWrite | hackpadfs.FlagAppend | hackpadfs.FlagCreate, hackpadfs.FlagReadWrite | hackpadfs.FlagTruncate,
+	}
+	var open []hackpadfs.File
+	defer func() {
+		for _, f := range open {
+			_ = f.Close()
+		}
+	}()
+	for s := 0; s < steps; s++ {
+		if len(open) > 0 && rnd.Intn(100) < 45 {
+			i := rnd.Intn(len(open))
+			f := open[i].(*File)
+			switch rnd.Intn(12) {
+			case 0, 1:
+				_, _ = f.Read(make([]byte, rnd.Intn(7)))
+			case 2:
+				_, _ = f.ReadAt(make([]byte, rnd.Intn(7)), int64(rnd.Intn(12)-1))
+			case 3, 4:
+				_, _ = f.Write(data())
+			case 5:
+				_, _ = f.WriteAt(data(), int64(rnd.Intn(12)-1))
+			case 6:
+				_, _ = f.Seek(int64(rnd.Intn(14)-3), []int{0, 1, 2, 0, 1, 2, 9}[rnd.Intn(7)]) // 9: no such origin (3 and 4 are SEEK_DATA / SEEK_HOLE on Linux)
+			case 7:
+				_ = f.Truncate(int64(rnd.Intn(12) - 1))
+			case 8:
+				_, _ = f.Stat()
+			case 9:
+				_, _ = f.ReadDir(rnd.Intn(4) - 1)
+			case 10:
+				_ = f.Chmod(perm())
+			case 11:
+				_ = f.Close()
+				if rnd.Intn(3) > 0 { // sometimes the closed handle stays around and is used again
+					open = append(open[:i], open[i+1:]...)
+				}
+			}
+			continue
+		}
+		switch rnd.Intn(16) {
+		case 0, 1:
+			_ = fs.Mkdir(path(), perm())
+		case 2:
+			_ = fs.MkdirAll(path(), perm())
+		case 3, 4:
+			_ = fs.WriteFile(path(), data(), perm())
+		case 5, 6, 7:
+			if len(open) < 3 {
+				if f, err := fs.OpenFile(pathOrRoot(), flags[rnd.Intn(len(flags))], perm()); err == nil {
+					open = append(open, f)
+				}
+			}
+		case 8:
+			_ = fs.Remove(path())
+		case 9:
+			_ = fs.RemoveAll(path())
+		case 10, 11:
+			_ = fs.Rename(path(), path())
+		case 12:
+			_ = fs.Chmod(path(), perm())
+		case 13:
+			_, _ = fs.Stat(pathOrRoot())
+		case 14:
+			_, _ = fs.ReadDir(pathOrRoot())
+		case 15:
+			_, _ = fs.ReadFile(path())
+		}
+	}
+}
+
+func TestRandomMem(t *testing.T) {
+	randomHistories(t, "mem", func(tb testing.TB) hackpadfs.FS {
+		fs, _, err := fsad.MemFS()
+		if err != nil {
+			tb.Fatal(err)
+		}
+		return fs
+	})
+}
+
+func TestRandomKVPlain(t *testing.T) {
+	randomHistories(t, "kvplain", func(tb testing.TB) hackpadfs.FS {
+		fs, _, err := fsad.KVPlainFS()
+		if err != nil {
+			tb.Fatal(err)
+		}
+		return fs
+	})
+}
+
+func TestRandomOS(t *testing.T) {
+	randomHistories(t, "os", func(tb testing.TB) hackpadfs.FS {
 		sub, err := hpos.NewFS().Sub(strings.TrimPrefix(tb.TempDir(), "/"))
 		if err != nil {
 			tb.Fatal(err)
